@@ -309,7 +309,8 @@ impl Gen {
             }
             8 => {
                 // ---- recover
-                let caller = if rng.chance(1, 3) { sc.admin.clone() } else { rng.pick(&sc.users).clone() };
+                // (a configured monitor holds one privilege, halting; here it is a caller like any other)
+                let caller = if rng.chance(1, 3) { sc.admin.clone() } else if !sc.monitors.is_empty() && rng.chance(1, 5) { rng.pick(&sc.monitors).clone() } else { rng.pick(&sc.users).clone() };
                 let paginated = match rng.below(3) {
                     0 => Some(true),
                     1 => Some(false),
